@@ -90,7 +90,21 @@ fn directed_steps() -> Vec<(&'static str, Vec<Step>)> {
     let d = |op: Op| Step::Do(op);
     let create = |n: &str, c: &Vec<ColDef>| d(Op::CreateTable { name: n.into(), cols: c.clone() });
     let ins = |n: &str, rows: Vec<Vec<V>>| d(Op::Insert { table: n.into(), rows });
+    let lk = vec![ColDef::new("K", CT::Str(16)).key(), ColDef::new("V", CT::Str(0)).nullable()];
+    let long = |n: usize| V::Str("x".repeat(n));
     vec![
+        // cells around the 16-bit length escape, with short keys interned after them
+        (
+            "long-cells-then-short-keys",
+            vec![
+                create("L", &lk),
+                ins("L", vec![vec![V::s("Big1"), long(65_534)], vec![V::s("Big2"), long(65_535)], vec![V::s("Big3"), long(65_536)]]),
+                ins("L", vec![vec![V::s("Small"), V::s("t0x1 later")], vec![V::s("Tiny"), V::Null]]),
+                Step::Close(IntoInner),
+                ins("L", vec![vec![V::s("After"), V::s("t0x2 after reopen")]]),
+                Step::Close(Flush),
+            ],
+        ),
         (
             "null-then-empty-string-key",
             vec![create("S", &sk), ins("S", vec![vec![V::Null, V::Int(1)]]), ins("S", vec![vec![V::s(""), V::Int(2)]]), Step::Close(IntoInner)],
